@@ -85,7 +85,7 @@ func runC16(c *run.Ctx) {
 		return
 	}
 	cfg := world.DefaultCfg()
-	cfg.KindTwins, cfg.SharedNames = 0.15, 0.1
+	cfg.KindTwins, cfg.SharedNames, cfg.DottedNames = 0.15, 0.1, 0.2
 	cfg.NamedEgressIP = 0
 	if g.P(0.3) {
 		cfg.Kinds = world.AllWorkloadKinds
